@@ -107,6 +107,15 @@ CHECKS = {
              "stay on the hinted worker in every phase, std_thread_scheduler work must not be a pika task.",
         note="Value channel only; the machine has one socket (16 PUs), layouts vary sizes/offsets/policies, not NUMA.",
         ref="DESIGN.md section 2, C10"),
+    "C12": dict(
+        technique="runtime monitoring: frame canaries, asm stub for callee-saved registers, stack-range registry, clean-start assertions on "
+                  "recycled thread objects, exit-callback ledger; ASan and Debug-assert flavours as extra oracles",
+        text="Exploration: tens of thousands of tasks per run over four stack classes with non-default configured sizes and guard pages on/off; "
+             "canaries and registers are checked across yields, real suspensions and migrations; recycled thread objects must start clean "
+             "after polluting predecessors (thread data, undelivered or late interruption requests, exit callbacks).",
+        note="D5 (FP control word not part of the context) is a listed known finding decided by a separate fp mode; recycling is only live in "
+             "the plain/TSan flavours.",
+        ref="DESIGN.md section 2, C12"),
 }
 
 NOT_YET = "not claimed yet: harness under construction in this session (see DESIGN.md section 2)"
